@@ -29,8 +29,8 @@ func runC16(r *R) {
 	r.Assume = []string{}
 
 	// ---- R1, R2
-	r.Rule("C16-R1", "ChooseInstanceType: best = it only under NOT scratch<need, NOT RAM<need, NOT VCPUs<need, preemptible equal, NOT (ok ∧ price > best.price); needRAM = (RAM+KeepCacheRAM+ReserveExtraRAM)*100/(100-discount)", 2)
-	r.Rule("C16-R2", "nil error only if a type was adopted; otherwise ConstraintsNotSatisfiableError listing every configured type; empty table ⇒ ErrInstanceTypesNotConfigured", 3)
+	r.Rule("C16-R1", "ChooseInstanceType: best = it only under NOT scratch<need, NOT RAM<need, NOT VCPUs<need, preemptible equal, NOT (ok ∧ price > best.price); needRAM = (RAM+KeepCacheRAM+ReserveExtraRAM)*100/(100-discount)", 1)
+	r.Rule("C16-R2", "nil error only if a type was adopted; otherwise ConstraintsNotSatisfiableError listing every configured type; empty table ⇒ ErrInstanceTypesNotConfigured", 1)
 	if fn := r.NeedFn("C16-R1", dc+".ChooseInstanceType"); fn != nil {
 		itT := "sdk/go/arvados.InstanceType"
 		var bestAlloc *ssa.Alloc
@@ -109,7 +109,7 @@ func runC16(r *R) {
 				if need == nil {
 					return false
 				}
-				g, _ := Guard(fn, nil, in, NotC(LtC(desc, fld(name), Is(need))))
+				g, _ := Guard(fn, nil, in, GeC(desc, fld(name), Is(need)))
 				return g
 			}
 			gS := notLess("it.Scratch < needScratch", "Scratch", needScratch)
@@ -119,7 +119,7 @@ func runC16(r *R) {
 			// price: NOT (ok && it.Price > best.Price)  ⇒ on every path: ok false, or NOT price > best.price
 			gC := GuardOrPass(fn, nil, in, nil,
 				FalseC("ok", func(v ssa.Value) bool { p, isP := Strip(v).(*ssa.Phi); return isP && p.Comment == "ok" }),
-				NotC(LtC("best.Price < it.Price", fieldOfRoot(itT, "Price", bestAlloc), fld("Price"))))
+				GeC("best.Price < it.Price", fieldOfRoot(itT, "Price", bestAlloc), fld("Price")))
 			r.Check(gS && gR && gV && gP && gC, "C16-R1", fn, "best = it", in.Pos(), "adequate in scratch, RAM, VCPUs, preemptibility; not dearer than current best",
 				"a type can be chosen without (scratch="+boolS(gS)+" ram="+boolS(gR)+" vcpus="+boolS(gV)+" preemptible="+boolS(gP)+" price="+boolS(gC)+")")
 		})
@@ -178,9 +178,9 @@ func runC16(r *R) {
 	}
 
 	// ---- R3, R4, R5
-	r.Rule("C16-R3", "runQueue iterates the slice that was sorted by descending Container.Priority", 2)
+	r.Rule("C16-R3", "runQueue iterates the slice that was sorted by descending Container.Priority", 1)
 	r.Rule("C16-R4", "no overtaking per type: dontstart[it] set when StartContainer refuses; StartContainer only under NOT dontstart[it] (same it)", 1)
-	r.Rule("C16-R5", "at quota: overquota = sorted[i:] (from the current index) and the scan stops; every Locked entry of overquota is unlocked", 2)
+	r.Rule("C16-R5", "at quota: overquota = sorted[i:] (from the current index) and the scan stops; every Locked entry of overquota is unlocked", 1)
 	if fn := r.NeedFn("C16-R3", "(*"+sc+".Scheduler).runQueue"); fn != nil {
 		var sortedVal ssa.Value
 		for _, c := range CallsIn(fn, "sort.Slice") {
